@@ -11,6 +11,7 @@ import (
 
 	"verif/harness/internal/gen"
 	"verif/harness/internal/mon"
+	"verif/harness/internal/ref"
 )
 
 func main() { mon.Main("C10", run) }
@@ -277,6 +278,11 @@ func (t *tracker) process(d D) {
 		case !d.CanClose(cl):
 			t.fail("closed:not-closable", fmt.Sprintf("%s was reported closed by %s but the closing rules do not allow it", t.name(cl), i))
 			return
+		case !ref.CanClose(byte(d.TypeID()), byte(cl.TypeID()), d.EventID() == cl.EventID(), d.SCTE35().PTS() == cl.SCTE35().PTS(), d.SegmentNumber() == d.SegmentsExpected()):
+			// "closable under the closing rules" is also asked of the documented rule table itself (C19 decides
+			// CanClose against it; here the tracker's result is)
+			t.fail("closed:not-closable-by-the-documented-rules", fmt.Sprintf("%s was reported closed by %s but the documented closing-rule table has no rule that allows it", t.name(cl), i))
+			return
 		case t.seq[cl] >= prev:
 			t.fail("closed:order", fmt.Sprintf("the closed list is not ordered last-opened first: %s", t.names(closed)))
 			return
@@ -437,9 +443,6 @@ func random(c *mon.Ctx, r *gen.Rand) {
 		t.pat["signal-times-out-of-order"] = true
 	}
 	lowest, used := pts, []uint64{}
-	// submissions so far, and the number of them that preceded the first one at each signal time: every submission
-	// adds at most one signal time to the tracker's duplicate memory (10 signal times)
-	subs, firstAt := 0, map[uint64]int{}
 	for i := 0; i < n && !t.dead; i++ {
 		switch op := r.Intn(20); {
 		case op < 13:
@@ -459,10 +462,6 @@ func random(c *mon.Ctx, r *gen.Rand) {
 				}
 			}
 			used = append(used, pts)
-			if _, ok := firstAt[pts]; !ok {
-				firstAt[pts] = subs
-			}
-			subs++
 			typ := types[r.Intn(len(types))]
 			if r.Chance(12) {
 				typ = r.Byte() // "any segmentation types": all 256 values of the field, with or without rules
@@ -481,7 +480,6 @@ func random(c *mon.Ctx, r *gen.Rand) {
 			t.register(d, typ, d.EventID(), pts, d.SCTE35().HasPTS())
 			t.process(d)
 			if pts != cur && r.Bool() {
-				subs++
 				t.process(d) // twice in a row
 			}
 			pts = cur
@@ -496,14 +494,12 @@ func random(c *mon.Ctx, r *gen.Rand) {
 			if t.inf[d].hasPTS && t.perPTS[t.inf[d].pts] >= 7 {
 				continue
 			}
-			// re-submission is only meaningful inside the tracker's duplicate window (10 signal times) or after close
-			if int((pts-t.inf[d].pts)&(1<<33-1))/100 >= 8 && t.live[d] {
+			// a descriptor that is still open is submitted again only directly after its own submission ("twice in a
+			// row" is what the statement speaks about; how long a tracker remembers what it has seen - ten signal
+			// times, ten descriptors - is its own business); closed ones may come back at any time
+			if t.live[d] && !(t.lastWasP && t.lastProc == d) {
 				continue
 			}
-			if at, ok := firstAt[t.inf[d].pts]; outOfOrder && t.live[d] && (!ok || subs-at >= 8) {
-				continue
-			}
-			subs++
 			t.process(d)
 		case op < 18:
 			if len(t.all) == 0 {
@@ -540,10 +536,6 @@ func random(c *mon.Ctx, r *gen.Rand) {
 			sg.SetDescriptors([]D{d1, d2})
 			t.register(d1, 0x30, d1.EventID(), pts, true)
 			t.register(d2, 0x34, d2.EventID(), pts, true)
-			if _, ok := firstAt[pts]; !ok {
-				firstAt[pts] = subs
-			}
-			subs += 2
 			t.process(d1)
 			if r.Bool() {
 				ts.SetHasPTS(false)
@@ -627,7 +619,7 @@ func pooled(c *mon.Ctx, r *gen.Rand) {
 		case op < 13:
 			if len(t.all) > 0 {
 				d := t.all[r.Intn(len(t.all))]
-				if t.perPTS[t.inf[d].pts] < 6 {
+				if t.perPTS[t.inf[d].pts] < 6 && (!t.live[d] || t.lastWasP && t.lastProc == d) {
 					t.process(d)
 				}
 			}
@@ -649,6 +641,55 @@ func pooled(c *mon.Ctx, r *gen.Rand) {
 	}
 	t.c.Count("pooled.histories")
 	t.finish("pooled")
+}
+
+// piled builds an open list of 9..70 descriptors that do not close each other, with a program breakaway (and so a
+// pending blackout) somewhere in it, then sends descriptors that close most of the list at once, probes, resumes,
+// closes on request: the bookkeeping behind a list that shrinks from dozens of entries to a few.
+func piled(c *mon.Ctx, r *gen.Rand) {
+	t := newTracker(c)
+	pts := uint64(1000)
+	n := 9 + r.Intn(r.PickInt([]int{8, 8, 24, 62}))
+	brk := r.Intn(n)
+	if r.Chance(5) {
+		brk = -1
+	}
+	for i := 0; i < n && !t.dead; i++ {
+		pts = (pts + 100) & (1<<33 - 1)
+		typ := r.PickByte([]byte{0x34, 0x36, 0x17, 0x34, 0x36, 0x17, 0x19, 0x20, 0x40})
+		if i == brk {
+			typ = 0x13
+		}
+		d := mk(typ, uint32(1+r.Intn(2)), pts, true, 1, 1)
+		t.register(d, typ, d.EventID(), pts, true)
+		t.process(d)
+	}
+	t.pat["pile-of-9-or-more-then-mass-close"] = true
+	for i := 0; i < 8 && !t.dead; i++ {
+		pts = (pts + 100) & (1<<33 - 1)
+		switch r.Intn(6) {
+		case 0:
+			t.probe()
+		case 1:
+			var live []D
+			for _, d := range t.all {
+				if t.live[d] {
+					live = append(live, d)
+				}
+			}
+			if len(live) > 0 {
+				t.close(live[r.Intn(len(live))])
+			}
+		default:
+			typ := r.PickByte([]byte{0x50, 0x51, 0x10, 0x11, 0x14, 0x50, 0x10, 0x21, 0x35, 0x41, 0x13})
+			d := mk(typ, uint32(1+r.Intn(2)), pts, true, 1, 1)
+			t.register(d, typ, d.EventID(), pts, true)
+			t.process(d)
+			t.probe()
+		}
+	}
+	t.c.Count("piled.histories")
+	t.finish("piled")
 }
 
 // deep builds an open list of 60..200 descriptors (types that nothing closes, and repeated breakaways)
@@ -787,7 +828,7 @@ func exhaustive(c *mon.Ctx, code, depth int) {
 
 func run(c *mon.Ctx) {
 	c.Rule("histories of ProcessDescriptor / Close / Open calls on real descriptors: all sequences of 3 (thorough: 4 and 5) symbols over a 15-symbol alphabet (12 segmentation types, close-first, close-last, re-process-last), plus random histories of 3..30 calls over 16 types, two event ids, mostly increasing signal times with repeats (in a third of the histories also earlier times again and times before all others), short histories over small pools of types and times with explicit closes, 8% signals without PTS, re-submissions and explicit closes; invariants over the recorded event log are checked after every call. distinct non-trivial = distinct (set of patterns exercised among breakaway, breakaway closed by another signal, second breakaway, resumption in/outside blackout, explicit close during blackout / of the breakaway; operation-kind prefix) for histories with at least two patterns")
-	c.Assume("CanClose and Equal are the closing relation and equality decided by C19; a descriptor is re-submitted only inside the tracker's duplicate window or after it was closed; at most 7 submissions share one signal time (the tracker's per-time list doubles on every such arrival, which is outside this property but would exhaust memory)")
+	c.Assume("CanClose and Equal are the closing relation and equality decided by C19; a descriptor that is still open is submitted again only directly after its own submission (the statement's twice in a row), closed ones at any time; at most 7 submissions share one signal time (the tracker's per-time list doubles on every such arrival, which is outside this property but would exhaust memory)")
 	c.Floor("pattern.breakaway-closed-by-other", 100)
 	c.Floor("pattern.second-breakaway", 100)
 	c.Floor("pattern.resumption-in-blackout", 100)
@@ -852,6 +893,8 @@ func run(c *mon.Ctx) {
 	c.Floor("pattern.type-from-the-whole-code-space", 1000)
 	c.Floor("pooled.histories", 10000)
 	c.Stream("pooled", c.N(40000, 20000000), func(i int, r *gen.Rand) { pooled(c, r) })
+	c.Floor("piled.histories", 3000)
+	c.Stream("piled", c.N(12000, 6000000), func(i int, r *gen.Rand) { piled(c, r) })
 	c.Stream("interleaved", c.N(10000, 5000000), func(i int, r *gen.Rand) { interleaved(c, r) })
 	c.Stream("deep", c.N(300, 60000), func(i int, r *gen.Rand) { deep(c, r) })
 }
